@@ -40,6 +40,8 @@ type vfC45G struct {
 	// fields stay unset; 1 = the hint probabilities as written; 2 = additionally
 	// foreign/garbage Any payloads and bad pool values are frequent.
 	wild int
+	// server > 0 while a listener FilterChain (server side) is being filled
+	server int
 }
 
 type vfC45Hint struct {
@@ -135,7 +137,7 @@ func init() {
 		"envoy.config.listener.v3.ApiListener.api_listener":               {P: 96},
 		"envoy.config.listener.v3.FilterChain.filter_chain_match":         {P: 70},
 		"envoy.config.listener.v3.FilterChain.filters":                    {P: 94, Max: 2},
-		"envoy.config.listener.v3.FilterChain.transport_socket":           {P: 25},
+		"envoy.config.listener.v3.FilterChain.transport_socket":           {P: 15},
 		"envoy.config.listener.v3.FilterChain.name":                       {P: 50, Str: "name"},
 		"envoy.config.listener.v3.Filter.name":                            {P: 96, Gen: vfC45GenUniqueName},
 		"envoy.config.listener.v3.FilterChainMatch.prefix_ranges":         {P: 40, Max: 2},
@@ -240,6 +242,9 @@ func init() {
 		"envoy.config.route.v3.FilterConfig.disabled":                                 {P: 15},
 		// ---- Cluster
 		"envoy.config.cluster.v3.Cluster.name":                                      {P: 96, Str: "name"},
+		"envoy.config.cluster.v3.Cluster.type":                                      {Gen: vfC45GenClusterType},
+		vfC45RBACRoute + ".rbac":                                                    {P: 80},
+		vfC45RBAC + ".rules":                                                        {P: 25},
 		"envoy.config.cluster.v3.Cluster.eds_cluster_config":                        {P: 85},
 		"envoy.config.cluster.v3.Cluster.EdsClusterConfig.eds_config":               {P: 94},
 		"envoy.config.cluster.v3.Cluster.EdsClusterConfig.service_name":             {P: 50, Str: "name"},
@@ -250,18 +255,18 @@ func init() {
 		"envoy.config.cluster.v3.Cluster.RingHashLbConfig.maximum_ring_size":        {P: 50},
 		"envoy.config.cluster.v3.Cluster.least_request_lb_config":                   {P: 30},
 		"envoy.config.cluster.v3.Cluster.LeastRequestLbConfig.choice_count":         {P: 60},
-		"envoy.config.cluster.v3.Cluster.load_balancing_policy":                     {P: 12},
+		"envoy.config.cluster.v3.Cluster.load_balancing_policy":                     {P: 8},
 		"envoy.config.cluster.v3.LoadBalancingPolicy.policies":                      {P: 94, Max: 2},
 		"envoy.config.cluster.v3.LoadBalancingPolicy.Policy.typed_extension_config": {P: 94},
-		"envoy.config.cluster.v3.Cluster.transport_socket":                          {P: 25},
+		"envoy.config.cluster.v3.Cluster.transport_socket":                          {P: 15},
 		"envoy.config.cluster.v3.Cluster.transport_socket_matches":                  {P: 2, Max: 1},
-		"envoy.config.cluster.v3.Cluster.outlier_detection":                         {P: 30},
+		"envoy.config.cluster.v3.Cluster.outlier_detection":                         {P: 20},
 		"envoy.config.cluster.v3.Cluster.circuit_breakers":                          {P: 30},
 		"envoy.config.cluster.v3.CircuitBreakers.thresholds":                        {P: 85, Max: 2},
 		"envoy.config.cluster.v3.CircuitBreakers.Thresholds.priority":               {P: 40},
 		"envoy.config.cluster.v3.CircuitBreakers.Thresholds.max_requests":           {P: 80},
-		"envoy.config.cluster.v3.Cluster.lrs_server":                                {P: 30},
-		"envoy.config.cluster.v3.Cluster.load_assignment":                           {P: 35},
+		"envoy.config.cluster.v3.Cluster.lrs_server":                                {P: 30, Gen: vfC45GenLRSServer},
+		"envoy.config.cluster.v3.Cluster.load_assignment":                           {P: 45, Gen: vfC45GenLoadAssignment},
 		"envoy.config.cluster.v3.Cluster.metadata":                                  {P: 20},
 		"envoy.config.cluster.v3.Cluster.lrs_report_endpoint_metrics":               {P: 20, Max: 3, Str: "metric"},
 		"envoy.config.cluster.v3.Cluster.CustomClusterType.name":                    {P: 94, Str: "ctype"},
@@ -298,7 +303,7 @@ func init() {
 // Oneof biases (percent per member; members not listed share 6 %; the rest of
 // the probability mass leaves the oneof unset).
 var vfC45Oneofs = map[string]vfC45Oneof{
-	vfC45HCM + ".route_specifier":                                                        {"rds": 45, "route_config": 45},
+	vfC45HCM + ".route_specifier":                                                        {"rds": 65, "route_config": 28},
 	"envoy.config.core.v3.ConfigSource.config_source_specifier":                          {"ads": 60, "self": 25},
 	"envoy.extensions.filters.network.http_connection_manager.v3.HttpFilter.config_type": {"typed_config": 92},
 	"envoy.config.listener.v3.Filter.config_type":                                        {"typed_config": 94},
@@ -306,7 +311,7 @@ var vfC45Oneofs = map[string]vfC45Oneof{
 	"envoy.config.core.v3.SocketAddress.port_specifier":                                  {"port_value": 90},
 	"envoy.config.route.v3.Route.action":                                                 {"route": 74, "non_forwarding_action": 10, "redirect": 4, "direct_response": 3},
 	"envoy.config.route.v3.RouteMatch.path_specifier":                                    {"prefix": 42, "path": 25, "safe_regex": 20, "connect_matcher": 2},
-	"envoy.config.route.v3.RouteAction.cluster_specifier":                                {"cluster": 45, "weighted_clusters": 36, "cluster_header": 4, "cluster_specifier_plugin": 6},
+	"envoy.config.route.v3.RouteAction.cluster_specifier":                                {"cluster": 48, "weighted_clusters": 38, "cluster_header": 2, "cluster_specifier_plugin": 2},
 	"envoy.config.route.v3.RouteAction.HashPolicy.policy_specifier":                      {"header": 50, "filter_state": 32},
 	"envoy.config.route.v3.HeaderMatcher.header_match_specifier":                         {"exact_match": 10, "safe_regex_match": 14, "range_match": 12, "present_match": 12, "prefix_match": 8, "suffix_match": 8, "contains_match": 8, "string_match": 22},
 	"envoy.type.matcher.v3.StringMatcher.match_pattern":                                  {"exact": 25, "prefix": 20, "suffix": 15, "safe_regex": 15, "contains": 15},
@@ -314,6 +319,15 @@ var vfC45Oneofs = map[string]vfC45Oneof{
 	"envoy.config.cluster.v3.Cluster.lb_config":                                          {"ring_hash_lb_config": 30, "least_request_lb_config": 30},
 	"envoy.config.endpoint.v3.LbEndpoint.host_identifier":                                {"endpoint": 94},
 	"envoy.extensions.transport_sockets.tls.v3.CommonTlsContext.validation_context_type": {"validation_context": 35, "combined_validation_context": 30, "validation_context_certificate_provider_instance": 15},
+}
+
+// roll returns a number in [0,100) that is (close to) uniformly distributed:
+// rapid's integer generators are deliberately biased towards small values,
+// which would inflate every "set this field with p %" decision, so the drawn
+// value is spread by a multiplicative hash (still a pure function of the draw).
+func (g *vfC45G) roll(label string) int {
+	x := rapid.Uint64().Draw(g.rt, label)
+	return int(((x + 0x1234567) * 0x9E3779B97F4A7C15 >> 33) % 100)
 }
 
 func (g *vfC45G) pct(p int, label string) bool {
@@ -331,7 +345,7 @@ func (g *vfC45G) pct(p int, label string) bool {
 	if p >= 100 {
 		return true
 	}
-	return rapid.IntRange(0, 99).Draw(g.rt, label) < p
+	return g.roll(label) < p
 }
 
 func (g *vfC45G) str(pool string, label string) string {
@@ -346,7 +360,7 @@ func (g *vfC45G) str(pool string, label string) string {
 	case 2:
 		bad = 30
 	}
-	if bad > 0 && rapid.IntRange(0, 99).Draw(g.rt, label+"_bad") < bad {
+	if bad > 0 && g.roll(label+"_bad") < bad {
 		return rapid.SampledFrom(ps[1]).Draw(g.rt, label)
 	}
 	return rapid.SampledFrom(ps[0]).Draw(g.rt, label)
@@ -403,8 +417,8 @@ func vfC45GenPrefixLen(g *vfC45G, m protoreflect.Message, fd protoreflect.FieldD
 // weights: UInt32Value, 0 rarely, small mostly, near 2^32 sometimes.
 func vfC45GenWeight(g *vfC45G, m protoreflect.Message, fd protoreflect.FieldDescriptor, _ int) bool {
 	var v uint32
-	k := rapid.IntRange(0, 19).Draw(g.rt, "weight_kind")
-	if g.wild == 0 && k <= 2 && rapid.IntRange(0, 3).Draw(g.rt, "weight_tame") > 0 {
+	k := g.roll("weight_kind") / 5
+	if g.wild == 0 && k <= 2 && g.roll("weight_tame") >= 25 {
 		k = 10
 	}
 	switch {
@@ -491,7 +505,14 @@ func vfC45GenHTTPFilters(g *vfC45G, m protoreflect.Message, fd protoreflect.Fiel
 			fm.Set(fds.ByName("name"), protoreflect.ValueOfString(fmt.Sprintf("hf%d", g.addrSeq)))
 			typ := vfC45Router
 			if i < n-1 {
-				typ = rapid.SampledFrom([]string{vfC45Fault, vfC45RBAC, vfC45Fault}).Draw(g.rt, "mid_filter")
+				// fault injection is a client-side filter, RBAC a server-side one
+				typ = vfC45Fault
+				if g.server > 0 {
+					typ = vfC45RBAC
+				}
+				if g.pct(8, "wrong_side_filter") {
+					typ = rapid.SampledFrom([]string{vfC45Fault, vfC45RBAC}).Draw(g.rt, "mid_filter")
+				}
 			}
 			if a, ok := g.anyOf(typ, depth+2); ok {
 				fm.Set(fds.ByName("typed_config"), a)
@@ -529,11 +550,11 @@ func (g *vfC45G) anyOf(full string, depth int) (protoreflect.Value, bool) {
 
 func (g *vfC45G) genAny(ctx string, depth int) (protoreflect.Value, bool) {
 	cands := vfC45AnyCtx[ctx]
-	k := rapid.IntRange(0, 19).Draw(g.rt, "any_kind")
+	k := g.roll("any_kind") / 5
 	if g.wild == 0 && k <= 1 && len(cands) > 0 {
 		k = 2
 	}
-	if ctx == "envoy.config.core.v3.TransportSocket.typed_config" && k >= 2 && rapid.IntRange(0, 9).Draw(g.rt, "ts_side") < 8 {
+	if ctx == "envoy.config.core.v3.TransportSocket.typed_config" && k >= 2 && g.roll("ts_side") < 85 {
 		// the TLS context that fits the resource: downstream for listeners,
 		// upstream (or the HTTP CONNECT proxy wrapper) for clusters
 		switch {
@@ -698,6 +719,10 @@ func (g *vfC45G) fill(m protoreflect.Message, depth int) {
 	md := m.Descriptor()
 	full := string(md.FullName())
 	fds := md.Fields()
+	if full == "envoy.config.listener.v3.FilterChain" {
+		g.server++
+		defer func() { g.server-- }()
+	}
 	// well-known wrappers, Duration, Timestamp, Value: simple direct rules
 	switch {
 	case full == "google.protobuf.Duration":
@@ -727,9 +752,19 @@ func (g *vfC45G) fill(m protoreflect.Message, depth int) {
 		}
 		var pick protoreflect.FieldDescriptor
 		if weights != nil || depth < vfC45FreeDepth {
-			r := rapid.IntRange(0, 99).Draw(g.rt, string(oo.Name())+"_oneof")
+			r := g.roll(string(oo.Name()) + "_oneof")
 			acc := 0
 			if weights != nil {
+				if g.wild == 0 {
+					// mostly-valid resources: (almost) always one of the listed members
+					tot := 0
+					for _, n := range names {
+						tot += weights[n]
+					}
+					if tot >= 50 && r >= 2 {
+						r = r * tot / 100
+					}
+				}
 				rest := 0
 				for _, n := range names {
 					if w, ok := weights[n]; ok {
